@@ -35,7 +35,7 @@ READY = {
     "OHVerif.Props.C12Subst", "OHVerif.Props.C13Native", "OHVerif.Props.C19Sem", "OHVerif.Props.C14Deriv",
     "OHVerif.Props.C14Poly", "OHVerif.Props.C07UnionFind", "OHVerif.Props.IsoCert",
     "OHVerif.Props.C11Json", "OHVerif.Props.C08Iter", "OHVerif.Props.Comparators",
-    "OHVerif.Props.LaxDenote",
+    "OHVerif.Props.LaxDenote", "OHVerif.Props.C15Oracle",
 }
 
 def _mods(*names):
@@ -61,7 +61,7 @@ PROPS = {
     "C12": dict(modules=_mods("OHVerif.Props.C12", "OHVerif.Props.C12Type", "OHVerif.Props.C12Subst", "OHVerif.Props.IsoCert", "OHVerif.Props.LaxDenote"), groups=[("dynfunctor", 1500), ("functor", 800)], deps=[("oh", 400), ("ff", 300)]),
     "C13": dict(modules=_mods("OHVerif.Props.C13", "OHVerif.Props.C13Native", "OHVerif.Props.IsoCert", "OHVerif.Props.LaxDenote"), groups=[("dynfunctor", 2500)], deps=[("lax.cat", 400)]),
     "C14": dict(modules=_mods("OHVerif.Props.C14", "OHVerif.Props.C14Optic", "OHVerif.Props.C14Deriv", "OHVerif.Props.C14Poly"), groups=[("optic", 1500)], deps=[("dynfunctor", 300), ("eval", 300)]),
-    "C15": dict(modules=_mods("OHVerif.Props.C15", "OHVerif.Lemmas.Kahn"), groups=[("graph", 3000)], deps=[("ic", 400), ("prim", 300)]),
+    "C15": dict(modules=_mods("OHVerif.Props.C15", "OHVerif.Lemmas.Kahn", "OHVerif.Props.C15Oracle"), groups=[("graph", 3000)], deps=[("ic", 400), ("prim", 300)]),
     "C16": dict(modules=_mods("OHVerif.Props.C16"), groups=[("eval", 3000)], deps=[("graph", 600)]),
     "C17": dict(modules=_mods("OHVerif.Props.C17"), groups=[("oh", 2000), ("hg", 1500), ("graph", 800)], deps=[("prim", 300)], release=True),
     "C18": dict(modules=_mods("OHVerif.Props.C18"), groups=[("graph", 3000)], deps=[("ic", 300)]),
@@ -76,13 +76,13 @@ ONLY = {
     "C01": r"oh\.compose$",
     "C02": r"(oh\.tensor|hg\.coproduct|ic\.tensor|ff\.tensor|lax\.tensor|lax\.tensor_assign|law\.tensor_\w+:eq)$",
     "C03": r"law\.(assoc|id_left|id_right|interchange|twist_natural|twist_twist|hexagon|hexagon_mirror)$",
-    "C04": r"(oh\.dagger|oh\.spider|oh\.half_spider|lax\.dagger|lax\.spider|law\.dagger_\w+(:eq)?|law\.spider_fusion|law\.lax_spider_fusion|law\.strict_dagger|law\.identity_is_spider:eq|law\.twist_is_spider:eq)$",
+    "C04": r"(oh\.dagger|oh\.spider|oh\.half_spider|lax\.dagger|lax\.spider|law\.dagger_\w+(:eq)?|law\.spider_fusion|law\.lax_spider_fusion|law\.strict_dagger|law\.identity_is_spider|law\.twist_is_spider)$",
     "C05": r"(lax\.edit|hg\.new|oh\.new|ff\.new|ic\.new_\w+|ic\.from_semifinite_\w+|ic\.ops_new|oh\.\w+|lax\.(from_strict|to_strict|identity|spider|singleton|tensor|compose|lax_compose|twist|dagger|source|target)|functor\.\w+|lax\.functor\.\w+|lax\.optic\.\w+)$",
     "C06": r"ff\.",
     "C07": r"prim\.",
     "C08": r"ic\.",
-    "C09": r"lax\.edit$",
-    "C10": r"(lax\.(from_strict|to_strict|to_hypergraph|compose|lax_compose|tensor|tensor_assign|append|coproduct_assign|identity|twist|spider|dagger|singleton)|law\.(to_from_strict:eq|from_to_strict:lax-eq|strict_\w+))$",
+    "C09": r"lax\.quot$",
+    "C10": r"(lax\.(from_strict|to_strict|to_hypergraph|compose|lax_compose|tensor|tensor_assign|append|coproduct_assign|identity|twist|spider|dagger|singleton)|law\.(to_from_strict:eq|from_to_strict:lax-eq|tensor_assign_eq:lax-eq|append_eq:lax-eq|coproduct_assign_eq:lax-eq|strict_\w+))$",
     "C11": r"lax\.(edit|json)$",
     "C12": r"(functor\.\w+|lax\.functor\.map_arrow)$",
     "C13": r"lax\.functor\.(try_map_arrow|map_arrow_witness|map_arrow)$",
